@@ -9,6 +9,7 @@ import extract_conv
 import extract_semtok
 import extract_vfs
 import extract_lmap
+import extract_fileset
 import weave
 from common import VERIF, REPO, scratch, Undecided
 from rustcut import AnchorLost
@@ -67,7 +68,15 @@ UNITS['lmap'] = {
          'old': 'self.line_starts[line as usize + 1] - self.line_starts[line as usize] - 1', 'new': 'self.line_starts[line as usize + 1] - self.line_starts[line as usize]'},
     ],
 }
-COPY_DIRS = ('crates/glas/src', 'crates/ide/src/ide')
+UNITS['fileset'] = {
+    'extract': extract_fileset, 'spec': 'contracts/fileset.spec', 'prelude': 'contracts/fileset_prelude.rs',
+    'reach': ('proof fn reach_probe(fs: FileSet, p: VfsPath, f: FileId)\n    requires fs.files().contains_key(p), fs.paths().contains_key(f), fs.files()[p] != f,\n{ assert(false); }\n'),
+    'canaries': [
+        {'name': 'verus: FileSet::remove_file leaves the path -> id entry behind', 'file': 'crates/ide/src/base.rs',
+         'old': '            self.files.remove(&path);\n', 'new': ''},
+    ],
+}
+COPY_DIRS = ('crates/glas/src', 'crates/ide/src/ide', 'crates/ide/src/base.rs')
 
 
 def build(unit, repo, outdir):
@@ -128,7 +137,11 @@ def run(unit, repo=REPO, tag=None):
 def canary(unit, c, idx):
     d = os.path.join(scratch(), '%scanary%d' % (unit, idx))
     for sub in COPY_DIRS:
-        shutil.copytree(os.path.join(REPO, sub), os.path.join(d, sub))
+        if os.path.isdir(os.path.join(REPO, sub)):
+            shutil.copytree(os.path.join(REPO, sub), os.path.join(d, sub), dirs_exist_ok=True)
+        else:
+            os.makedirs(os.path.dirname(os.path.join(d, sub)), exist_ok=True)
+            shutil.copy(os.path.join(REPO, sub), os.path.join(d, sub))
     p = os.path.join(d, c['file'])
     s = open(p).read()
     if s.count(c['old']) != 1:
